@@ -185,10 +185,23 @@ def oracle(c):
         t = s.replace("U", "T") if c.get("m") == "rna" else s
         if not is_canon(s, "ACGU" if c.get("m") == "rna" else "ACGT") or len(s) < 3:
             return None
-        fr = frames_spec(c["id"], t)
+        fr = frames_spec(c["id"], rc_spec(t) if c.get("rc") else t)
         return fr if c.get("allow_rc", True) else fr[:3]
+    if k == "best_frame":
+        return c.get("planted")
+    if k == "select_rc":
+        if "planted" not in c:
+            return None
+        out = []
+        for i, (s, f) in enumerate(zip(c["seqs"], c["planted"])):
+            t = s if f > 0 else rc_spec(s)
+            off = abs(f) - 1
+            ncod = (len(t) - off) // 3
+            out.append([f"s{i}", t[off:off + 3 * ncod]])
+        return [out, out]   # the planted frame holds no stop codon: trimming changes nothing
     if k == "app_translate_seqs":
-        seqs = c["seqs"]
+        seqs = [rc_spec(s) for s in c["seqs"]] if c.get("rc") and all(is_canon(s) for s in c["seqs"]) else c["seqs"]
+        c = dict(c, seqs=seqs)
         if not all(is_canon(s) for s in seqs) or any(len(s) % 3 for s in seqs) or not all(seqs):
             return None
         out = []
@@ -320,8 +333,12 @@ def coq_terms(c) -> list:
     x = stop handling of empty sequences / alignments (C12-2, C12-3).  The d variants are only
     evaluated from 256 codons on (below, theorem translate_dtype_pinned_guarded says they coincide)."""
     k = c["k"]
-    if c.get("nomodel") or k in ("app_translate_seqs", "app_select"):
+    if c.get("nomodel") or c.get("rc") or k in ("app_translate_seqs", "app_select"):
         return []
+    if k == "best_frame":
+        return [("", f"CBestFrame {zlit(c['id'])} {zstr(c['s'])} {cbool(c['allow_rc'])}")]
+    if k == "select_rc":
+        return [("", f"CSelect {zlit(c['id'])} {zseqs(c)} true")]
     if k == "getitem":
         return [("", f"CGetItem {V(c['v'])} {zlit(c['id'])} {zstr(c['codon'])}")]
     if k == "codontable":
@@ -411,6 +428,8 @@ def run_model(cases):
     for c, (i, tags) in zip(cases, spans):
         if not tags:
             out.append(None)
+        elif tags == [""] and c["k"] == "select_rc":
+            out.append([[[f"s{q}", w] for q, w in enumerate(row) if w is not None] for row in vals[i]])
         elif tags == [""]:
             out.append(vals[i])
         elif c["k"] == "seqrc":
@@ -695,7 +714,18 @@ def random_block(rng, n, maxlen):
             s = rand_seq(rng, maxlen, mode=0.0)
             if len(s) >= 3:
                 cases.append(dict(k="app_frames", id=cid, s=s, allow_rc=rng.random() < 0.6, block="random"))
-        elif r < 0.61:
+        elif r < 0.60:
+            s = rand_seq(rng, maxlen, mode=0.0)
+            if rng.random() < 0.5:
+                s = rand_cds(rng, cid, ncod=rng.randint(1, 8))
+            if rng.random() < 0.5:
+                s = rc_spec(s)
+            if len(s) >= 1:
+                if rng.random() < 0.5:
+                    cases.append(dict(k="best_frame", id=cid, s=s, allow_rc=rng.random() < 0.7, block="random"))
+                else:
+                    cases.append(dict(k="select_rc", id=cid, seqs=[s, rc_spec(s)][:rng.randint(1, 2)], block="random"))
+        elif r < 0.625:
             nseq = rng.randint(1, 3)
             if rng.random() < 0.5:
                 nc = rng.randint(1, 6)
@@ -740,6 +770,64 @@ def random_block(rng, n, maxlen):
             else:
                 syms = "".join(rng.choice(al[:5]) for _ in range(rng.randint(1, 5)))
                 cases.append(dict(k="what", m=m, motifs=syms, block="random"))
+    return cases
+
+
+def planted_orf(rng, cid, frame, lmod3, ncod=None):
+    """a sequence whose ONLY frame without an internal or terminal stop codon is `frame` (+1..+3 on the
+    plus strand, -1..-3 on the reverse complement) and whose length is `lmod3` modulo 3; None if the
+    code has no stop codon"""
+    aa = NCBI[cid][0]
+    words = [B1[i] + B2[i] + B3[i] for i in range(64)]
+    sense = [w for w, x in zip(words, aa) if x != "*"]
+    if len(sense) == 64:
+        return None
+    for _ in range(4000):
+        k = ncod or rng.randint(18, 30)
+        off = abs(frame) - 1
+        body = "".join(rng.choice(sense) for _ in range(k))
+        head = "".join(rng.choice("ACGT") for _ in range(off))
+        tail_len = (lmod3 - (off + 3 * k)) % 3
+        t = head + body + "".join(rng.choice("ACGT") for _ in range(tail_len))
+        s = t if frame > 0 else rc_spec(t)
+        fr = frames_spec(cid, s)
+        want = (frame - 1) if frame > 0 else (2 - frame)
+        if all(("*" in f) == (i != want) for i, f in enumerate(fr)) and all("*" in f[:-1] for i, f in enumerate(fr) if i != want):
+            return s
+    return None
+
+
+def planted_block(rng, tier):
+    """best_frame / select_translatable(allow_rc=True) / translate_frames / translate_seqs on sequences whose only
+    open frame is each of the 6 frames x each length mod 3 (minus-strand offsets must be taken on rc(s))"""
+    cases = []
+    codes = (1, 4, 2, 11) if tier == "thorough" else (1, 4)
+    reps = 3 if tier == "thorough" else 1
+    for cid in codes:
+        for frame in (1, 2, 3, -1, -2, -3):
+            for lmod3 in (0, 1, 2):
+                for _ in range(reps):
+                    s = planted_orf(rng, cid, frame, lmod3)
+                    if s is None:
+                        continue
+                    cases.append(dict(k="best_frame", id=cid, s=s, allow_rc=True, planted=frame, block="planted-frames"))
+                    cases.append(dict(k="select_rc", id=cid, seqs=[s], planted=[frame], block="planted-frames"))
+                    cases.append(dict(k="app_frames", id=cid, s=s, allow_rc=True, rc=True, block="planted-frames"))
+                    cases.append(dict(k="app_frames", id=cid, s=s, allow_rc=True, block="planted-frames"))
+                    if frame > 0:
+                        cases.append(dict(k="best_frame", id=cid, s=s, allow_rc=False, planted=frame, block="planted-frames"))
+                    if frame == -1 and lmod3 == 0:
+                        cases.append(dict(k="app_translate_seqs", id=cid, seqs=[s], aligned=False, rc=True, block="planted-frames"))
+                        cases.append(dict(k="app_translate_seqs", id=cid, seqs=[s, s], aligned=True, rc=True, block="planted-frames"))
+        # several sequences with different planted frames in one collection
+        seqs, fr = [], []
+        for frame in (-2, 3, -3, 1, -1, 2):
+            s = planted_orf(rng, cid, frame, rng.randint(0, 2))
+            if s is not None:
+                seqs.append(s)
+                fr.append(frame)
+        if seqs:
+            cases.append(dict(k="select_rc", id=cid, seqs=seqs, planted=fr, block="planted-frames"))
     return cases
 
 
@@ -796,6 +884,10 @@ def classify(c, bad_idx=None):
         return f"app.translate_seqs:{'alignment' if c['aligned'] else 'collection'}:trim={bad_idx[0] if bad_idx else ''}"
     if k == "app_select":
         return f"app.select_translatable:frame:trim={bad_idx[0] if bad_idx else ''}"
+    if k in ("best_frame", "select_rc"):
+        f = (c.get("planted") or 1) if k == "best_frame" else (c.get("planted") or [1])[0]
+        name = "app.best_frame" if k == "best_frame" else "app.select_translatable:allow_rc"
+        return f"{name}:{'minus' if f < 0 else 'plus'}:len%3{'==0' if len(c['s'] if k == 'best_frame' else c['seqs'][0]) % 3 == 0 else '!=0'}"
     return k
 
 
@@ -983,8 +1075,10 @@ def nontrivial(c) -> bool:
         return True
     if k == "getitem":
         return len(c["codon"]) == 3
-    if k in ("app_translate_seqs", "app_select"):
+    if k in ("app_translate_seqs", "app_select", "select_rc"):
         return any(len(s) >= 3 for s in c["seqs"])
+    if k == "best_frame":
+        return True
     if k == "gettrans":
         return any("TAA" in s or "TGA" in s or "TAG" in s or "AGA" in s for s in c["seqs"])
     if k in ("complement", "rc", "rc2", "seqrc"):
@@ -1029,7 +1123,7 @@ def run(tier: str, seed: int) -> int:
     maxlen = 60 if tier == "quick" else 300
     if proof_broken:
         nrand *= 3  # widened search
-    cases = spread_slow(exhaustive_block(tier, widen=proof_broken) + random_block(rng, nrand, maxlen))
+    cases = spread_slow(exhaustive_block(tier, widen=proof_broken) + planted_block(rng, tier) + random_block(rng, nrand, maxlen))
     impl = core.run_impl_sharded("c12_impl.py", cases)
     model = None
     try:
